@@ -27,6 +27,12 @@ def run(ctx):
     run_queues(ctx, jobs, pb=2 if q else 3, max_exec=400 if q else 20000, per_driver={'queue_nik': 1500, 'queue_ram': 700} if q else None)
     if not q:
         run_queues(ctx, jobs, pb=5, max_exec=0, mode='random', runs=600, tagx='r')
+    # S: the impl spec NikolaevQueue is bound to the code at the grain of single atomic accesses (ring words match exactly)
+    from props.c03 import step_bind
+    nq = queue_models.nq_consts(Progs='<-ProgStep', SetupOps=0, MaxNodes=7)
+    keep = lambda r: ('nikolaev_queue' in r.get('ctx', '') or 'nikolaev_scq' in r.get('ctx', '')) and 'nikolaev_scq::nikolaev_scq' not in r.get('ctx', '')
+    for rc in (['nebr0'] if q else ['nebr0', 'ebr0', 'debra0', 'qsbr', 'stamp']):
+        step_bind(ctx, 'NikolaevQueue', 'queue_nik', ['nik10/%s/I;;push1,push2,pop;pop,push3' % rc], nq, pb=2, max_exec=400 if q else 20000, keep=keep)
     for r in ctx.tv[:3]:
         ctx.samples.append({'driver': r['driver'], 'history': canonical_sample(execution_lines(r['trace'], 2), 60)})
     return finish(ctx,
